@@ -41,6 +41,11 @@ pub enum Op {
     Udp(Option<u16>),
     /// udp with the local address 0.0.0.0:port (all interfaces, fixed port)
     UdpAny(u16),
+    /// udp with the IPv6 local address [::1]:port
+    Udp6(u16),
+    /// wholesale flag replacement that keeps bits the crate has no name for (IsiFlags::from_bits_retain): reserved bits 0 / 1,
+    /// bits 12..15 of a newer LFS
+    FlagsRetain(u16),
     Relay,
     Compressed,
     Uncompressed,
@@ -60,6 +65,8 @@ pub enum Op {
 pub struct Model {
     pub udp: bool,
     pub udp_local: Option<u16>,
+    /// the flags were installed with from_bits_retain: unnamed bits are part of the configuration
+    pub retain: bool,
     pub flags: u16,
     pub prefix: Option<u8>,
     pub interval: Option<u64>,
@@ -71,7 +78,7 @@ pub struct Model {
 
 impl Default for Model {
     fn default() -> Self {
-        Model { udp: false, udp_local: None, flags: 0, prefix: None, interval: None, iname: None, admin: None, reqi: 0, compressed: true }
+        Model { udp: false, udp_local: None, retain: false, flags: 0, prefix: None, interval: None, iname: None, admin: None, reqi: 0, compressed: true }
     }
 }
 
@@ -104,6 +111,7 @@ pub fn apply(ops: &[Op], remote_addr: SocketAddr) -> Result<(Builder, Model), St
                 }
             },
             Op::Flags(bits) => {
+                m.retain = false;
                 m.flags = *bits;
                 b.isi_flags(IsiFlags::from_bits_truncate(*bits))
             },
@@ -136,6 +144,16 @@ pub fn apply(ops: &[Op], remote_addr: SocketAddr) -> Result<(Builder, Model), St
                 m.udp_local = *local;
                 let l: Option<SocketAddr> = local.map(|p| SocketAddr::from(([127, 0, 0, 1], p)));
                 b.udp(remote_addr, l)
+            },
+            Op::Udp6(port) => {
+                m.udp = true;
+                m.udp_local = Some(*port);
+                b.udp(remote_addr, Some(SocketAddr::from((std::net::Ipv6Addr::LOCALHOST, *port))))
+            },
+            Op::FlagsRetain(bits) => {
+                m.flags = *bits;
+                m.retain = true;
+                b.isi_flags(IsiFlags::from_bits_retain(*bits))
             },
             Op::UdpAny(port) => {
                 m.udp = true;
@@ -174,7 +192,7 @@ pub fn model_isi(m: &Model) -> Isi {
     Isi {
         reqi: RequestId(m.reqi),
         udpport: if m.udp { m.udp_local.unwrap_or(0) } else { 0 },
-        flags: IsiFlags::from_bits_truncate(m.flags),
+        flags: if m.retain { IsiFlags::from_bits_retain(m.flags) } else { IsiFlags::from_bits_truncate(m.flags) },
         version: 9,
         prefix: m.prefix.map(|c| c as char).unwrap_or('\0'),
         interval: Duration::from_millis(m.interval.unwrap_or(0)),
@@ -190,7 +208,7 @@ pub fn reference_isi_frame(m: &Model) -> Vec<u8> {
     let mut f = vec![if m.compressed { 11u8 } else { 44 }, 1, i.reqi.0, 0];
     f.extend_from_slice(&i.udpport.to_le_bytes());
     let known: u16 = FLAG_BITS.iter().fold(0, |a, (_, b)| a | *b);
-    f.extend_from_slice(&(m.flags & known).to_le_bytes());
+    f.extend_from_slice(&(if m.retain { m.flags } else { m.flags & known }).to_le_bytes());
     f.push(9);
     f.push(m.prefix.unwrap_or(0));
     f.extend_from_slice(&(m.interval.unwrap_or(0) as u16).to_le_bytes());
@@ -247,6 +265,10 @@ fn op_from(s: &str) -> Option<Op> {
                 Op::Admin(opt_str(&i)?)
             } else if let Some(i) = inner("Reqi(") {
                 Op::Reqi(i.parse().ok()?)
+            } else if let Some(i) = inner("Udp6(") {
+                Op::Udp6(i.parse().ok()?)
+            } else if let Some(i) = inner("FlagsRetain(") {
+                Op::FlagsRetain(i.parse().ok()?)
             } else if let Some(i) = inner("UdpAny(") {
                 Op::UdpAny(i.parse().ok()?)
             } else if let Some(i) = inner("Udp(") {
@@ -371,7 +393,7 @@ impl Part for Connect {
     }
     fn check(&self, c: &ConnectCase, ev: &mut Local) -> Result<(), Fail> {
         // the generated ops never contain transport selection; it is appended here with real loopback addresses
-        let mut ops: Vec<Op> = c.ops.iter().filter(|o| !matches!(o, Op::Tcp | Op::Udp(_) | Op::UdpAny(_))).cloned().collect();
+        let mut ops: Vec<Op> = c.ops.iter().filter(|o| !matches!(o, Op::Tcp | Op::Udp(_) | Op::UdpAny(_) | Op::Udp6(_))).cloned().collect();
         let received: Vec<Vec<u8>>;
         let model;
         if !c.udp {
@@ -381,7 +403,7 @@ impl Part for Connect {
             }).unwrap();
             let addr = listener.local_addr().unwrap();
             ops.push(Op::Tcp);
-            ops.extend(c.post.iter().filter(|o| !matches!(o, Op::Tcp | Op::Udp(_) | Op::UdpAny(_) | Op::Relay)).cloned());
+            ops.extend(c.post.iter().filter(|o| !matches!(o, Op::Tcp | Op::Udp(_) | Op::UdpAny(_) | Op::Udp6(_) | Op::Relay)).cloned());
             let (b, m) = apply(&ops, addr).map_err(|e| Fail::new("harness:apply", e))?;
             model = m;
             let server = std::thread::spawn(move || {
@@ -429,7 +451,7 @@ impl Part for Connect {
                 Some(p) if c.local_any => Op::UdpAny(p),
                 l => Op::Udp(l),
             });
-            ops.extend(c.post.iter().filter(|o| !matches!(o, Op::Tcp | Op::Udp(_) | Op::UdpAny(_) | Op::Relay)).cloned());
+            ops.extend(c.post.iter().filter(|o| !matches!(o, Op::Tcp | Op::Udp(_) | Op::UdpAny(_) | Op::Udp6(_) | Op::Relay)).cloned());
             let (b, m) = apply(&ops, addr).map_err(|e| Fail::new("harness:apply", e))?;
             model = m;
             let r: Result<Result<(), String>, String> = if c.async_api {
@@ -512,13 +534,13 @@ fn text_opt(max: usize) -> impl Strategy<Value = Option<String>> {
 
 fn op_strategy(with_transport: bool) -> impl Strategy<Value = Op> {
     let transport = if with_transport {
-        prop_oneof![Just(Op::Tcp), Just(Op::Relay), prop_oneof![Just(None), (1024u16..65535).prop_map(Some), Just(Some(0u16))].prop_map(Op::Udp), prop_oneof![3 => 1024u16..65535, 1 => Just(0u16)].prop_map(Op::UdpAny)].sboxed()
+        prop_oneof![Just(Op::Tcp), Just(Op::Relay), prop_oneof![Just(None), (1024u16..65535).prop_map(Some), Just(Some(0u16))].prop_map(Op::Udp), prop_oneof![3 => 1024u16..65535, 1 => Just(0u16)].prop_map(Op::UdpAny), (1024u16..65535).prop_map(Op::Udp6)].sboxed()
     } else {
         Just(Op::Compressed).sboxed()
     };
     prop_oneof![
         6 => (0usize..10, any::<bool>()).prop_map(|(i, b)| Op::Flag(i, b)),
-        1 => any::<u16>().prop_map(|b| Op::Flags(b & 0x0ffc)),
+        2 => prop_oneof![any::<u16>().prop_map(|b| Op::Flags(b & 0x0ffc)), any::<u16>().prop_map(Op::FlagsRetain)],
         1 => prop_oneof![Just(None), (0x21u8..0x7f).prop_map(Some)].prop_map(Op::Prefix),
         1 => prop_oneof![2 => Just(None), 4 => (0u64..65536).prop_map(Some), 1 => Just(Some(65535u64)), 1 => Just(Some(65536u64)), 1 => (65536u64..4_000_000).prop_map(Some),
             // values a narrowing step would wrap into the 16-bit field
